@@ -3,6 +3,7 @@
 From Coq Require Import ZArith List Bool Arith Lia.
 Import ListNotations.
 From GV Require Import Common.Wire C03.Model.
+From GV Require C03.GenEquiv C03.GenManager.
 From GV Require Export C03.Lemmas1 C03.Lemmas2 C03.Lemmas3 C03.Lemmas4.
 Open Scope nat_scope.
 
@@ -430,3 +431,17 @@ Definition discover_wellfounded := Lemmas1.discover_wellfounded.
 Definition discover_order_irrelevant := Lemmas1.discover_order_irrelevant.
 Definition discover_value := Lemmas2.discover_value.
 Definition selection_follows_links := Lemmas2.selection_follows_links.
+
+(* the functions translated from glue/core/link_manager.py on every run (gen/Gen_links.v), tied to the model in GenEquiv.v *)
+Definition gen_accessible_links_spec := GenEquiv.gen_accessible_links_spec.
+Definition gen_discover_is_model := GenEquiv.gen_discover_is_model.
+Definition gen_discover_total := GenEquiv.gen_discover_total.
+Definition gen_discover_reachable := GenEquiv.gen_discover_reachable.
+Definition gen_discover_wellfounded_min := GenEquiv.gen_discover_wellfounded_min.
+Definition gen_discover_value := GenEquiv.gen_discover_value.
+Definition gen_discover_order_irrelevant := GenEquiv.gen_discover_order_irrelevant.
+Definition gen_component_removed_spec := GenManager.gen_component_removed_spec.
+Definition gen_data_removed_spec := GenManager.gen_data_removed_spec.
+Definition gen_component_removed_is_drop := GenManager.gen_component_removed_is_drop.
+Definition gen_update_installs := GenManager.gen_update_installs.
+Definition gen_update_is_recompute := GenManager.gen_update_is_recompute.
